@@ -234,7 +234,11 @@ def rule_translation(ctx):
     tk_name = hq.local_name_of_arg(b["body"], "ProofOutline::from_specification", 1, "taken_predicates")
     tk = ev.last_env.get(tk_name, [None])[-1]
     rt = repr(tk)
-    ctx.add("FLOW-PIPE", "taken-after-rename", tk is not None and "rename_predicates" in rt and rt.count("Formula::predicates") >= 2 and "input_predicates" in rt, site,
+    try:
+        ct_ = repr(_comp.canon(tk)) if tk is not None else ""      # one chain over both lists, flat-mapped, scans each list like a loop of its own
+    except Exception:
+        ct_ = ""
+    ctx.add("FLOW-PIPE", "taken-after-rename", tk is not None and "rename_predicates" in rt and max(rt.count("Formula::predicates"), ct_.count("'at', ('call', 'Formula::predicates'")) >= 2 and "input_predicates" in rt, site,
             "taken_predicates = inputs + predicates of left + predicates of the renamed right")
     # user guide assumptions and proof outline placeholders
     uga = ev.last_env.get(hq.local_name_of_field(b["body"], "ValidatedExternalEquivalenceTask", "user_guide_assumptions", "user_guide_assumptions"), [None])[-1]
